@@ -201,6 +201,7 @@ type State struct {
 	ghost  map[string]SVal
 	events []string
 	cuts   map[string]bool // loop headers already cut on this path: key = frameid:blockindex
+	visits map[string]int  // visits of unrolled (contract-less, constant-bound) loop headers on this path
 	defers []deferred
 	keep   map[int]bool // ids of path-condition entries that define ghost atoms: never dropped by a `forget` cut
 }
@@ -221,6 +222,12 @@ func (s *State) Clone() *State {
 	}
 	for k, v := range s.cuts {
 		n.cuts[k] = v
+	}
+	if len(s.visits) > 0 {
+		n.visits = make(map[string]int, len(s.visits))
+		for k, v := range s.visits {
+			n.visits[k] = v
+		}
 	}
 	if s.keep != nil {
 		n.keep = map[int]bool{}
